@@ -940,6 +940,8 @@ func ruleLibParse(c *Ctx, r *R) {
 			site := c.Pos(instrPos(pc))
 			if why := parseInputIsRegexpMatch(c, fn, pc); why != "" {
 				r.ok(key+":grammar", site, why)
+			} else if inStringLiteralValue(c, fn) && c.eClean("SPEC-string-escape") {
+				r.ok(key+":grammar", site, "the digits of an escape sequence; "+subsumedBy("SPEC-string-escape")+" (its literals include signs, underscores and non-digits after the escape character)")
 			} else if why, ok := reviewedLookup(libParseReviewed, ssaFuncName(fn)+":"+name); ok {
 				r.ok("reviewed:"+key, site, why)
 			} else {
@@ -984,6 +986,42 @@ var es5NumericForms = []string{"0", "7", "007", "5.", ".5", "5.5", "5e3", "5E3",
 // grammarGuarded: some If on the result of <regexp global>.MatchString(input) dominates the parse call such that the
 // call is reachable only when the regexp matched, and that regexp (a constant pattern) rejects every Go-only form.
 func grammarGuarded(c *Ctx, fn *ssa.Function, pc *ssa.Call) (bool, string) {
+	if len(pc.Call.Args) == 0 {
+		return false, "no input"
+	}
+	ok, leak := grammarGuardedAt(c, fn, pc, pc.Call.Args[0])
+	if ok {
+		return true, ""
+	}
+	// the text is a parameter of a helper: the guard may stand in every caller, before the call
+	in := pc.Call.Args[0]
+	for i := 0; i < 4; i++ {
+		switch x := in.(type) {
+		case *ssa.Slice:
+			in = x.X
+			continue
+		case *ssa.Convert:
+			in = x.X
+			continue
+		}
+		break
+	}
+	if p, isParam := in.(*ssa.Parameter); isParam {
+		n := 0
+		if c.argAtAllCallSites(p, func(arg ssa.Value, site ssa.CallInstruction) bool {
+			n++
+			g, _ := grammarGuardedAt(c, site.Parent(), site, arg)
+			return g
+		}, 0) && n > 0 {
+			return true, ""
+		}
+	}
+	return false, leak
+}
+
+// grammarGuardedAt: instruction `at` of fn, which consumes the text `input`, is reachable only through a guard that
+// rejects every Go-only numeric form.
+func grammarGuardedAt(c *Ctx, fn *ssa.Function, at ssa.Instruction, input ssa.Value) (bool, string) {
 	leak := "any of the Go-only forms (no guard at all)"
 	// Guards that reject every Go-only form, each with the edge taken when it accepts the text: a constant regexp
 	// (MatchString) and a predicate of the module over the same text (evaluated on the probes). The call is guarded when
@@ -1028,7 +1066,7 @@ func grammarGuarded(c *Ctx, fn *ssa.Function, pc *ssa.Call) (bool, string) {
 			if rejects {
 				guardEdges[edge{b, yes}] = true
 			}
-		case len(callee.Blocks) > 0 && callee.Pkg == fn.Pkg && len(call.Call.Args) == 1 && len(pc.Call.Args) > 0 && sameSSA(call.Call.Args[0], pc.Call.Args[0], 0) && callee.Signature.Results().Len() == 1:
+		case len(callee.Blocks) > 0 && callee.Pkg == fn.Pkg && len(call.Call.Args) == 1 && sameSSA(call.Call.Args[0], input, 0) && callee.Signature.Results().Len() == 1:
 			if bt, ok := callee.Signature.Results().At(0).Type().Underlying().(*types.Basic); !ok || bt.Kind() != types.Bool {
 				continue
 			}
@@ -1050,7 +1088,7 @@ func grammarGuarded(c *Ctx, fn *ssa.Function, pc *ssa.Call) (bool, string) {
 		seen := map[*ssa.BasicBlock]bool{}
 		var reach func(x *ssa.BasicBlock) bool
 		reach = func(x *ssa.BasicBlock) bool {
-			if x == pc.Block() {
+			if x == at.Block() {
 				return true
 			}
 			if seen[x] {
@@ -1107,7 +1145,7 @@ func grammarGuarded(c *Ctx, fn *ssa.Function, pc *ssa.Call) (bool, string) {
 			matchedSucc, otherSucc = otherSucc, matchedSucc
 		}
 		// the parse call must be unreachable from the not-matched side
-		if reaches(otherSucc, pc.Block(), map[*ssa.BasicBlock]bool{b: true}) || !b.Dominates(pc.Block()) {
+		if reaches(otherSucc, at.Block(), map[*ssa.BasicBlock]bool{b: true}) || !b.Dominates(at.Block()) {
 			continue
 		}
 		_ = matchedSucc
